@@ -1,15 +1,21 @@
 ---------------------------- MODULE NixVersionOrder ----------------------------
 (* Format-version algebra of include/nix/Version.hpp: lexicographic order, canRead, canWrite (C10). *)
-EXTENDS NixCommon
+EXTENDS Integers
 \* version algebra (the design of include/nix/Version.hpp)
+\* @type: (<<Int, Int, Int>>, <<Int, Int, Int>>) => Bool;
 VLess(a, b) == \/ a[1] < b[1]
                \/ a[1] = b[1] /\ a[2] < b[2]
                \/ a[1] = b[1] /\ a[2] = b[2] /\ a[3] < b[3]
+\* @type: (<<Int, Int, Int>>, <<Int, Int, Int>>) => Bool;
 VEq(a, b)   == a[1] = b[1] /\ a[2] = b[2] /\ a[3] = b[3]
+\* @type: (<<Int, Int, Int>>, <<Int, Int, Int>>) => Bool;
 VLe(a, b)   == VLess(a, b) \/ VEq(a, b)
+\* @type: (<<Int, Int, Int>>, <<Int, Int, Int>>) => Bool;
 CanRead(lib, f)  == lib[1] = f[1] /\ lib[2] >= f[2]
+\* @type: (<<Int, Int, Int>>, <<Int, Int, Int>>) => Bool;
 CanWrite(lib, f) == VEq(lib, f)
 
+\* @type: Set(<<Int, Int, Int>>) => Bool;
 OrderLaws(S) ==
   /\ \A a \in S : ~VLess(a, a)
   /\ \A a, b \in S : VLess(a, b) \/ VLess(b, a) \/ VEq(a, b)
@@ -17,6 +23,7 @@ OrderLaws(S) ==
   /\ \A a, b \in S : VEq(a, b) <=> (a = b)
   /\ \A a, b \in S : VLe(a, b) <=> ~VLess(b, a)
   /\ \A a, b \in S : CanWrite(a, b) => CanRead(a, b)
+\* @type: Set(<<Int, Int, Int>>) => Bool;
 Transitive(S) == \A a, b, c \in S : (VLess(a, b) /\ VLess(b, c)) => VLess(a, c)
 
 =============================================================================
